@@ -49,7 +49,7 @@ Theorem C09_write_stored_value :
   forall c s mtu h u old p v c' s',
     clean c s mtu -> value_at (sdb s) h u old p -> (N.of_nat (length v) < 65536)%N ->
     client_write h v c s = (Ok VTrue, c', s') ->
-    c' = c
+    c' = c /\ writeable p = true
     /\ lookup (sdb s') h = Some (AValue u (if length v <=? mtu - 3 then v else v ++ skipn (length v) old))
     /\ (forall h', h' <> h -> lookup (sdb s') h' = lookup (sdb s) h')
     /\ wq s' = [] /\ crashed s' = false.
@@ -77,12 +77,24 @@ Theorem C09_write_long_ok_stores_refuted :
     /\ lookup (sdb s') h <> Some (AValue u v).
 Proof. exact write_long_ok_stores_refuted. Qed.
 
+(** every long write to a characteristic value, every value length, every MTU >= 23, in one
+    equation: executed only when the characteristic is writable (or nothing was queued) *)
+Theorem C09_write_long_result :
+  forall c s mtu h u old p v,
+    clean c s mtu -> value_at (sdb s) h u old p -> (N.of_nat (length v) < 65536)%N ->
+    client_write_long h v c s
+    = if writeable p || (length v =? 0)
+      then (Ok VTrue, c, set_wq (set_db s (update (sdb s) h (AValue u (v ++ skipn (length v) old)))) [])
+      else (Raise (EAtt E_WRITE_NOT_PERMITTED), c, set_wq s []).
+Proof. exact write_long_result. Qed.
+
 (** for every value length and every MTU >= 23: the long write succeeds, all chunks arrive
     (none lost, none duplicated), the prepared queue is empty afterwards, nothing else changes;
     the stored value is the written one followed by what the old value had beyond its length *)
 Theorem C09_write_long_stored_value :
   forall c s mtu h u old p v,
-    clean c s mtu -> value_at (sdb s) h u old p -> (N.of_nat (length v) < 65536)%N ->
+    clean c s mtu -> value_at (sdb s) h u old p -> writeable p = true ->
+    (N.of_nat (length v) < 65536)%N ->
     exists s', client_write_long h v c s = (Ok VTrue, c, s')
       /\ lookup (sdb s') h = Some (AValue u (v ++ skipn (length v) old))
       /\ (forall h', h' <> h -> lookup (sdb s') h' = lookup (sdb s) h')
@@ -196,12 +208,19 @@ Theorem C09_unknown_handle_raises :
     /\ client_write h v c s = (Raise (EAtt E_ATTR_NOT_FOUND), c, s).
 Proof. exact unknown_handle_raises. Qed.
 
-Theorem C09_write_descriptor_times_out :
+Theorem C09_write_descriptor_raises :
   forall c s mtu h u x v,
     clean c s mtu -> (h < 65536)%N -> h <> 0%N -> lookup (sdb s) h = Some (ADesc u x) ->
     length v <= mtu - 3 ->
-    client_write h v c s = (Raise ETimeout, c, s).
-Proof. exact write_descriptor_times_out. Qed.
+    client_write h v c s = (Raise (EAtt E_WRITE_NOT_PERMITTED), c, s).
+Proof. exact write_descriptor_raises. Qed.
+
+Theorem C09_write_long_not_permitted_raises :
+  forall c s mtu h u old p v,
+    clean c s mtu -> value_at (sdb s) h u old p -> writeable p = false -> v <> [] ->
+    (N.of_nat (length v) < 65536)%N ->
+    client_write_long h v c s = (Raise (EAtt E_WRITE_NOT_PERMITTED), c, set_wq s []).
+Proof. exact write_long_not_permitted. Qed.
 
 (** FULL STATEMENT: a write procedure that reports success changed the stored value of its
     target.  Refuted for long writes to attributes that are not characteristic values
